@@ -6,6 +6,8 @@ analyze/analyze_async.  Oracle: differential; each side owns its loader instance
 
 from __future__ import annotations
 
+import itertools
+
 import os
 import shutil
 import tempfile
@@ -337,7 +339,37 @@ HAND_CASES = [
 ]
 
 
+def argument_scope_cases():
+    """include / render with a bound variable AND a keyword argument of the same name (or one that the bound expression reads), in every
+    spelling: when the bound expression is evaluated relative to the tag's own arguments is the same for both renderers."""
+    partials = {"p": "[p={{ p }}|v={{ v }}|w={{ w }}|{{ forloop.index }}]", "row": "<{{ row }}{{ rows | size }}>"}
+    for tag in ("include", "render"):
+        for form in ("with v, v: 'kw'", "with v as w, v: 'kw'", "with v as w, w: 'kw'", "for vs, vs: few", "for vs as v, v: 'kw'", "with v, p: 'kw'", "for vs as p, p: 'kw', v: p",
+                     "with h.k as v, h: other", "for h.list as v, h: other", "with v, v: w, w: v"):
+            for name in ("p", "row"):
+                src = "{% assign w = 'outer-w' %}{% " + tag + " '" + name + "' " + form.replace("vs", "rows" if name == "row" else "vs") + " %}"
+                yield {"templates": dict(partials, main=src), "main": "main", "loader": "dict", "env": {},
+                       "data": {"v": "outer-v", "vs": [1, 2, 3], "rows": [7, 8, 9], "few": [1], "h": {"k": "hk", "list": [4, 5]}, "other": {"k": "ok", "list": [6]}}}
+
+
+def conditions_with_effects_cases():
+    """Conditions whose evaluation has an effect (block.super renders the parent block, counters and cycles included): each renderer
+    evaluates a condition the same number of times."""
+    base = "{% block b %}{% increment c %}{% endblock %}|{% block d %}{% cycle 'x', 'y', 'z' %}{% endblock %}|{{ c }}"
+    for cond in ("block.super == '0'", "block.super", "block.super != ''", "block.super contains '0'"):
+        for shape in ("{% if false %}no{% elsif COND %}yes{% else %}else{% endif %}", "{% if COND %}yes{% else %}else{% endif %}", "{% unless COND %}no{% elsif COND %}yes{% else %}else{% endunless %}",
+                      "{% if false %}a{% elsif false %}b{% elsif COND %}yes{% elsif true %}late{% endif %}", "{% liquid\nif false\necho 'no'\nelsif COND\necho 'yes'\nelse\necho 'else'\nendif\n%}",
+                      "{% case COND %}{% when true %}t{% when '0' %}zero{% else %}e{% endcase %}", "{{ 'yes' if COND else 'no' }}"):
+            child = "{% extends 'base' %}{% block b %}" + shape.replace("COND", cond) + "{% endblock %}{% block d %}" + shape.replace("COND", cond.replace("'0'", "'x'")) + "{% endblock %}"
+            yield {"templates": {"base": base, "main": child}, "main": "main", "data": {}, "loader": "dict", "env": {"extra": True, "flags": {"ternary_expressions": True}}}
+
+
 def cases(ctx: core.Ctx):
+    for c in itertools.chain(argument_scope_cases(), conditions_with_effects_cases()):
+        c = dict(c)
+        c["data"] = V.enc(c["data"])
+        c.setdefault("ntags", 2)
+        yield c
     for c in HAND_CASES:
         c = dict(c)
         c["data"] = V.enc(c["data"])
